@@ -28,11 +28,17 @@ pub fn create_matrix(version: Version) -> QRCode {
     let mut qr = QRCode::default(size);
 
     create_matrix_pattern(&mut qr);
+    #[cfg(fast_qr_verif)]
+    crate::verif::point("blank.finder");
     create_matrix_timing(&mut qr);
     create_matrix_dark_module(&mut qr);
     create_matrix_alignments(&mut qr, version);
+    #[cfg(fast_qr_verif)]
+    crate::verif::point("blank.align");
     create_matrix_version_info(&mut qr, version);
     create_matrix_empty(&mut qr);
+    #[cfg(fast_qr_verif)]
+    crate::verif::point("blank.sep");
 
     let n: usize = qr.size;
 
